@@ -3,6 +3,7 @@
 Engine E1 (mc.histories): breadth-first search to a fixpoint over every dict-API history on the real
 cacheutils.LRI / LRU objects, compared step by step with a reference cache (recency list + counters).
 """
+import itertools
 from mc import core, histories
 
 PROPERTY = 'C02'
@@ -869,6 +870,100 @@ def configs(tier):
     return out
 
 
+# ------------------------------------------------------------------------------------------------------
+# Iteration interleaved with other operations.  "iteration" is in the statement's operation list and a sequence of
+# operations may well sit *between* two steps of one iterator (`for k in cache: cache[k]`).  A dict allows every operation
+# that does not change its size while it is iterated; the iteration then still reports the contents: every cached key
+# exactly once.  Fill a cache, open an iterator (iter / keys / items / values), between any two next() calls run one
+# body operation out of a menu of size-preserving ones (on the key just yielded or on a fixed other key) - every
+# sequence of body operations up to the length of the cache.
+
+ITER_VIEWS = ('iter', 'keys', 'items', 'values')
+ITER_BODIES = ('none', 'getitem-yielded', 'getitem-other', 'get-yielded', 'get-absent', 'setdefault-yielded',
+               'assign-yielded', 'assign-other', 'contains', 'len', 'eq', 'repr')
+
+
+def iter_case(cls_name, ms, n, om, view, bodies):
+    return {'config': {'class': cls_name, 'max_size': ms, 'keys': 'interleaved-iteration', 'on_miss': om},
+            'filled_with': n, 'view': view, 'between_steps': list(bodies)}
+
+
+def iter_check(cls_name, ms, n, om, view, bodies):
+    """-> [(sig, expected, observed)]."""
+    from boltons import cacheutils
+    cls = getattr(cacheutils, cls_name)
+    c = cls(max_size=ms, on_miss=(lambda k: ('m', k)) if om else None)
+    keys = ['k%d' % i for i in range(n)]
+    for i, k in enumerate(keys):
+        c[k] = i
+    want = {k: i for i, k in enumerate(keys)}
+    src = {'iter': lambda: iter(c), 'keys': lambda: iter(c.keys()), 'items': lambda: iter(c.items()),
+           'values': lambda: iter(c.values())}[view]
+    name = '%s.iteration(%s) interleaved with size-preserving operations' % (cls_name, view)
+    out = []
+    try:
+        it = src()
+        got = []
+        for step in range(n + 1):
+            try:
+                x = next(it)
+            except StopIteration:
+                break
+            got.append(x)
+            k = x if view in ('iter', 'keys') else x[0] if view == 'items' else keys[min(step, n - 1)]
+            b = bodies[step] if step < len(bodies) else 'none'
+            other = keys[0] if k != keys[0] else keys[-1]
+            if b == 'getitem-yielded':
+                c[k]
+            elif b == 'getitem-other':
+                c[other]
+            elif b == 'get-yielded':
+                c.get(k)
+            elif b == 'get-absent':
+                if not om:                       # with an on_miss the lookup of an absent key inserts it: not size-preserving
+                    c.get('absent-key', None)
+            elif b == 'setdefault-yielded':
+                c.setdefault(k, 'D')
+            elif b == 'assign-yielded':
+                c[k] = want[k]
+            elif b == 'assign-other':
+                c[other] = want[other]
+            elif b == 'contains':
+                k in c
+            elif b == 'len':
+                len(c)
+            elif b == 'eq':
+                c == want
+            elif b == 'repr':
+                repr(c)
+    except Exception as e:                                     # noqa
+        out.append(('C02|read:%s|raised' % name, 'no exception (no operation changes the size)', type(e).__name__))
+        return out
+    if view in ('iter', 'keys'):
+        exp, obs = sorted(keys), sorted(got, key=repr)
+    elif view == 'items':
+        exp, obs = sorted(want.items()), sorted(got, key=repr)
+    else:
+        exp, obs = sorted(want.values()), sorted(got, key=repr)
+    if exp != obs:
+        out.append(('C02|read:%s|reports-the-contents' % name, exp, obs))
+    return out
+
+
+def iter_shard(arg):
+    from mc import inputs
+    cls_name, ms, om = arg
+    t = inputs.Tally()
+    for n in range(1, ms + 1):
+        for view in ITER_VIEWS:
+            for bodies in itertools.product(ITER_BODIES, repeat=min(n, 3)):
+                case = iter_case(cls_name, ms, n, om, view, bodies)
+                t.count(nontrivial=n > 1 and any(b != 'none' for b in bodies), sample=case if len(t.samples) < 2 else None)
+                for sig, exp, obs in iter_check(cls_name, ms, n, om, view, bodies):
+                    t.bad(sig, case, exp, obs)
+    return t
+
+
 def run(ctx):
     parts = []
     for cls, ms, om in configs(ctx.tier):
@@ -893,6 +988,12 @@ def run(ctx):
         'only its own kind; tuples of length 0-2; None and falsy keys; floats, big ints, bytes, frozensets - without on_miss, '
         'with an on_miss that returns a value, and with one that raises KeyError for one key - against the reference cache '
         '(results, contents, counter deltas, on_miss calls, final reads and eviction order)'))
+    inputs.run_shards(ctx, iter_shard, [(cls, ms, om) for cls in ('LRI', 'LRU') for ms in ((2, 3, 4) if ctx.quick() else (2, 3, 4, 5))
+                                        for om in (False, True)], part='interleaved-iteration', rule=(
+        'a cache filled with 1..max_size keys, an iterator over it / its keys() / items() / values(), and between any two '
+        'next() calls one of %d size-preserving operations on the key just yielded or on another key: every sequence of '
+        'such operations up to length 3; the iteration yields every cached key (item, value) exactly once'
+        % len(ITER_BODIES)))
     sizes = (64, 257, 1025) if ctx.quick() else (64, 129, 257, 513, 1025, 4097)
     inputs.run_shards(ctx, large_shard, [(cls, ms, om) for cls in ('LRI', 'LRU') for ms in sizes for om in (False, True)], part='directed-large', rule=(
         'directed, NOT exhaustive: one fixed operation sequence per capacity (see large_plan), without and with an on_miss, '
@@ -909,6 +1010,10 @@ def run(ctx):
 
 def replay(ctx, data):
     cfg = data['case']['config']
+    if cfg.get('keys') == 'interleaved-iteration':
+        c = data['case']
+        return ['%s expected=%r observed=%r' % v for v in iter_check(cfg['class'], cfg['max_size'], c['filled_with'],
+                                                                      cfg.get('on_miss', False), c['view'], c['between_steps'])]
     if cfg.get('keys') == 'directed-large':
         t = large_shard((cfg['class'], cfg['max_size'], cfg.get('on_miss', False)))
         return ['%s expected=%r observed=%r' % (rec[6], rec[1], rec[2]) for rec in t.viols.values()]
